@@ -3,7 +3,8 @@ Outcome monitor over an exhaustively enumerated finite space: every unary/binary
 to every tuple of operand type classes, with operands as variables and as temporaries, in several value
 contexts. Each cell is one small function. The real front end (ddpprobe) decides which cells are accepted;
 a program assembled from accepted cells only, for which the front end reports no error, must be compiled
-and linked by the real kddp (exit 0, no 'Unerwarteter Fehler', no IR that LLVM rejects)."""
+and linked by the real kddp (exit 0, no 'Unerwarteter Fehler', no IR that LLVM rejects); the textual IR kddp emits for the
+same program must also pass llvm-as (LLVM's parser + verifier; kddp itself never runs the verifier)."""
 import itertools
 import json
 import os
@@ -93,8 +94,34 @@ CONTEXTS = {
 RETURN_TYPES = ["Zahl", "Kommazahl", "Byte", "Text", "Wahrheitswert", "Variable", "Zahlen Liste", "Text Liste"]
 
 
+LIST_OF = {"Zahl": "Zahlen Liste", "Kommazahl": "Kommazahlen Liste", "Byte": "Byte Liste", "Wahrheitswert": "Wahrheitswert Liste", "Buchstabe": "Buchstaben Liste",
+           "Text": "Text Liste", "Punkt": "Punkt Liste", "Variable": "Variablen Liste", "Nummer": "Nummer Liste"}
+COMPLEX_FORMS = ["elem", "unbox", "falls", "sc"]
+
+
 def operand(t, form):
-    return "v_" + ident(t) if form == "var" else "(mach_" + ident(t) + ")"
+    """operand of type class t. var: a variable; temp: a function result (temporary); the other forms are operands whose evaluation itself
+    spans several basic blocks of generated code (bounds check of a list element, type check of a Variable conversion, a nested 'falls',
+    a short-circuit operator / 'der Betrag von'): the enclosing operator must then join control flow that its operand opened"""
+    if form == "var":
+        return "v_" + ident(t)
+    if form == "temp":
+        return "(mach_" + ident(t) + ")"
+    if form == "sc":
+        if t == "Wahrheitswert":
+            return "(v_Wahrheitswert oder (mach_Wahrheitswert))"
+        if t == "Zahl":
+            return "(der Betrag von v_Zahl)"
+        form = "falls"
+    if form == "elem":
+        if t in LIST_OF:
+            return "(v_%s an der Stelle 1)" % ident(LIST_OF[t])
+        form = "unbox"
+    if form == "unbox":
+        return "(v_Variable als %s)" % t
+    if form == "falls":
+        return "(v_%s, falls v_Wahrheitswert, ansonsten (mach_%s))" % (ident(t), ident(t))
+    raise ValueError(form)
 
 
 def enumerate_cells(tier, rnd):
@@ -125,10 +152,119 @@ def enumerate_cells(tier, rnd):
         for b in tl:
             for f in forms:
                 cells.append((("cast", a, b, f), "%s als %s" % (operand(a, f), b)))
+    # operands that span several basic blocks, one operand slot at a time (the other slots hold variables)
+    common = TERNARY_OUTER
+    cx = []
+    for op, tpl in UNARY.items():
+        for t in tl:
+            for f in COMPLEX_FORMS:
+                cx.append((("un", op, t, f), tpl % operand(t, f)))
+    for op, tpl in BINARY.items():
+        for a in (tl if tier == "thorough" else common):
+            for b in (tl if tier == "thorough" else common):
+                for slot in (0, 1):
+                    for f in (COMPLEX_FORMS if tier == "thorough" else [rnd.choice(COMPLEX_FORMS)]):
+                        fa, fb = (f, "var") if slot == 0 else ("var", f)
+                        cx.append((("bin", op, a, b, fa + "/" + fb), tpl % (operand(a, fa), operand(b, fb))))
+    for op, tpl in TERNARY.items():
+        for a in common:
+            for b in common:
+                for c in common:
+                    if op == "falls" and a != c and tier == "quick":
+                        continue
+                    if op != "falls" and tier == "quick" and rnd.random() > 0.25:
+                        continue
+                    for slot in (0, 1, 2):
+                        for f in (COMPLEX_FORMS if (tier == "thorough" or op == "falls") else [rnd.choice(COMPLEX_FORMS)]):
+                            fs = ["var", "var", "var"]
+                            fs[slot] = f
+                            cx.append((("ter", op, a, b, c, "/".join(fs)), tpl % (operand(a, fs[0]), operand(b, fs[1]), operand(c, fs[2]))))
+    for a in common:
+        for b in tl:
+            for f in COMPLEX_FORMS:
+                cx.append((("cast", a, b, f), "%s als %s" % (operand(a, f), b)))
+    return cells + cx
+
+
+JEDE = {"m": "jeden", "f": "jede", "n": "jedes"}
+FIELD_DAT = {"m": "dem", "f": "der", "n": "dem"}
+NUM5 = ["Zahl", "Kommazahl", "Byte", "Nummer", "Hausnummer"]
+LITERALS = {"Zahl": "7", "Kommazahl": "1,5", "Byte": "(5 als Byte)", "Wahrheitswert": "wahr", "Buchstabe": "'a'", "Text": '"t"',
+            "Zahlen Liste": "eine leere Zahlen Liste", "Text Liste": "eine leere Text Liste", "Nummer": "3", "Wort": '"w"'}
+REF_NAMES = {"Zahl": "Zahlen Referenz", "Kommazahl": "Kommazahlen Referenz", "Byte": "Byte Referenz", "Wahrheitswert": "Wahrheitswert Referenz",
+             "Buchstabe": "Buchstaben Referenz", "Text": "Text Referenz", "Zahlen Liste": "Zahlen Listen Referenz", "Text Liste": "Text Listen Referenz",
+             "Punkt": "Punkt Referenz", "Variable": "Variablen Referenz"}
+
+
+def akk_of(t):
+    return "einen Buchstaben" if t == "Buchstabe" else "%s %s" % (AKK[TYPES[t]], t)
+
+
+def enumerate_stmt_cells(tier, rnd):
+    """statement-level cells: places where a STATEMENT (not an operator) consumes a value of some type class and the code generator
+    has a lowering of its own: repeat counts, counting-loop counter/bounds/step, for-each collections and element types, loop conditions,
+    compound assignments, plain assignments (variable, list element, field), declarations, returned values, by-value and Referenz
+    arguments, default values of Kombination fields. Each cell is (id, text); text is a whole top-level fragment, %K% = unique number."""
+    tl = list(TYPES)
+    lists = [t for t in tl if t.endswith("Liste")]
+    cells = []
+
+    def fn(body, top=""):
+        return top + "Die Funktion c%K% gibt nichts zurück, macht:\n\t" + body + "\nUnd kann so benutzt werden:\n\t\"c%K%\""
+    for t in tl:
+        cells.append((("stmt", "repeat-block", t), fn("Wiederhole:\n\t\tnimm 1.\n\tv_%s Mal." % ident(t))))
+        cells.append((("stmt", "repeat-line", t), fn("nimm 1 v_%s Mal." % ident(t))))
+        cells.append((("stmt", "while", t), fn("Solange v_%s, mache:\n\t\tVerlasse die Schleife." % ident(t))))
+        cells.append((("stmt", "do-while", t), fn("Mache:\n\t\tVerlasse die Schleife.\n\tSolange v_%s." % ident(t))))
+        cells.append((("stmt", "if", t), fn("Wenn v_%s, dann:\n\t\tnimm 1.\n\tSonst:\n\t\tnimm 2." % ident(t))))
+        cells.append((("stmt", "negiere", t), fn("Negiere v_%s." % ident(t))))
+    for ct in NUM5:
+        for a in NUM5:
+            for b in NUM5:
+                for c in [None] + NUM5:
+                    if tier == "quick" and c is not None and rnd.random() > 0.4:
+                        continue
+                    step = "" if c is None else " mit Schrittgröße v_%s" % ident(c)
+                    cells.append((("stmt", "for", ct, a, b, c or "-"), fn("Für %s %s i%%K%% von v_%s bis v_%s%s, mache:\n\t\tnimm i%%K%%." % (
+                        JEDE[TYPES[ct]], ct, ident(a), ident(b), step))))
+    for et in tl:
+        for coll in lists + ["Text", "Wort", "Titel"]:
+            cells.append((("stmt", "foreach", et, coll), fn("Für %s %s e%%K%% in v_%s, mache:\n\t\tnimm e%%K%%." % (
+                JEDE[TYPES[et]], "Buchstaben" if et == "Buchstabe" else et, ident(coll)))))
+    for a in tl:
+        for b in tl:
+            va, vb = "v_" + ident(a), "v_" + ident(b)
+            cells.append((("stmt", "assign", a, b), fn("Speichere %s in %s." % (vb, va))))
+            cells.append((("stmt", "decl", a, b), fn("%s %s r ist %s." % (ART[TYPES[a]], a, vb))))
+            cells.append((("stmt", "return", a, b), "Die Funktion c%%K%% gibt %s zurück, macht:\n\tGib %s zurück.\nUnd kann so benutzt werden:\n\t\"c%%K%%\"" % (akk_of(a), vb)))
+            cells.append((("stmt", "arg", a, b), fn("p%%K%% %s." % vb, top="Die Funktion p%%K%% mit dem Parameter a vom Typ %s, gibt nichts zurück, macht:\n\tnimm 1.\n"
+                                                     "Und kann so benutzt werden:\n\t\"p%%K%% <a>\"\n" % a)))
+            if a in REF_NAMES:
+                cells.append((("stmt", "refarg", a, b), fn("q%%K%% %s." % vb, top="Die Funktion q%%K%% mit dem Parameter a vom Typ %s, gibt nichts zurück, macht:\n\tnimm 1.\n"
+                                                            "Und kann so benutzt werden:\n\t\"q%%K%% <a>\"\n" % REF_NAMES[a])))
+            for nm, tpl in (("erhoehe", "Erhöhe %s um %s."), ("verringere", "Verringere %s um %s."), ("vervielfache", "Vervielfache %s um %s."),
+                            ("teile", "Teile %s durch %s."), ("verschiebe-links", "Verschiebe %s um %s Bit nach Links."), ("verschiebe-rechts", "Verschiebe %s um %s Bit nach Rechts.")):
+                cells.append((("stmt", nm, a, b), fn(tpl % (va, vb))))
+                if a in lists:
+                    cells.append((("stmt", nm + "-elem", a, b), fn(tpl % ("%s an der Stelle 1" % va, vb))))
+            if a in lists:
+                cells.append((("stmt", "assign-elem", a, b), fn("Speichere %s in %s an der Stelle 1." % (vb, va))))
+            for src_kind, val in (("var", vb), ("lit", LITERALS.get(b))):
+                if val is None:
+                    continue
+                top = ("Wir nennen die Kombination aus\n\t%s %s f mit Standardwert %s,\neinen K%%K%%, und erstellen sie so:\n\t\"mache K%%K%%\"\n" % (
+                    FIELD_DAT[TYPES[a]], a, val))
+                cells.append((("stmt", "field-default-" + src_kind, a, b), fn("Der K%K% k ist der Standardwert von einem K%K%.\n\tnimm (f von k).", top=top)))
+    for b in tl:
+        cells.append((("stmt", "assign-field", "Punkt.x", b), fn("Speichere v_%s in x von v_Punkt." % ident(b))))
+        cells.append((("stmt", "assign-field", "Punkt.name", b), fn("Speichere v_%s in name von v_Punkt." % ident(b))))
+        cells.append((("stmt", "assign-char", "Text", b), fn("Speichere v_%s in v_Text an der Stelle 1." % ident(b))))
     return cells
 
 
 def cell_function(k, ctx, expr):
+    if ctx == "stmt":
+        return expr.replace("%K%", str(k))
     if ctx.startswith("return_"):
         rt = ctx[len("return_"):]
         g = TYPES[rt]
@@ -160,17 +296,24 @@ def run(tier):
     pre = prelude()
     chk.rule = ("exhaustive: %d unary x %d binary x %d ternary operators and casts over %d operand type classes (primitives, their lists, Kombination, list of "
                 "Kombination, Variable, list of Variable, alias of Zahl and of Text, definition of Zahl, of Text and of a Kombination, list of alias); operands as "
-                "variables%s; each in the value contexts %s. A cell is distinct by (operator, operand classes, operand form, context); non-trivial = accepted by the "
-                "front end (then it must compile). Oracle: only outcomes of the real tools." % (len(UNARY), len(BINARY), len(TERNARY), len(TYPES),
+                "variables%s, and - one operand slot at a time - as operands that span several basic blocks (list element, Variable conversion, nested falls, short-circuit/Betrag); each in the value contexts %s. A cell is distinct by (operator, operand classes, operand form, context); non-trivial = accepted by the "
+                "front end (then it must compile). Statement-level cells as well: repeat counts, counting-loop counter x from x to x step types, for-each element x collection, loop/if conditions, plain and "
+                "compound assignments (variable, list element, field, character), declarations, returned values, by-value and Referenz arguments, default values of Kombination fields, each over all "
+                "type classes. Oracle: only outcomes of the real tools." % (len(UNARY), len(BINARY), len(TERNARY), len(TYPES),
                                                                                              "" if tier == "quick" else " and as temporaries (function results)", ctxs))
     chk.assumptions = ["no model of typing: the front end's own verdict selects the cells", "regex/compression libraries are absent (stub archives) - no cell uses them"]
     work_items = [(cid, expr, ctx) for (cid, expr) in cells for ctx in ctxs]
+    stmt_items = [(cid, text, "stmt") for cid, text in enumerate_stmt_cells(tier, rnd)]
     if tier == "quick":
         # quick keeps every unary/cast cell and every binary cell in two contexts, samples the rest
-        keep = [w for w in work_items if w[0][0] in ("un", "cast") or w[2] in ("var_init", "init_Zahl")]
-        rest = [w for w in work_items if not (w[0][0] in ("un", "cast") or w[2] in ("var_init", "init_Zahl"))]
+        def is_cx(w):
+            return any(f in COMPLEX_FORMS for f in w[0][-1].split("/"))
+        keepf = lambda w: (w[2] == "var_init") if is_cx(w) else (w[0][0] in ("un", "cast") or w[2] in ("var_init", "init_Zahl"))
+        keep = [w for w in work_items if keepf(w)]
+        rest = [w for w in work_items if not keepf(w)]
         rnd.shuffle(rest)
         work_items = keep + rest[:6000]
+    work_items += stmt_items
     chk.count("cells_enumerated", len(work_items))
     BATCH = 400
     batches = [work_items[i:i + BATCH] for i in range(0, len(work_items), BATCH)]
@@ -234,6 +377,17 @@ def run(tier):
             ok = c.rc == 0 and os.path.exists(exe)
             if ok:
                 os.unlink(exe)
+                # second reading of "IR that LLVM rejects": kddp does not run LLVM's verifier, and the back end sometimes survives
+                # ill-formed IR (a phi naming a block that is no predecessor). The emitted textual IR must pass llvm-as (parser + verifier).
+                ll = os.path.join(d, "m.ll")
+                c2 = vlib.kddp_compile(sp, ll, O=1)
+                if not c2.timed_out and c2.rc == 0 and os.path.exists(ll):
+                    v = vlib.run(["llvm-as-14", "-o", "/dev/null", ll], wall_s=120)
+                    os.unlink(ll)
+                    if not v.timed_out and v.rc != 0:
+                        first = re.sub(r"0x[0-9a-f]+|%\w+|\d+", "N", (v.err.strip().split("\n") or [""])[0])[:100]
+                        return False, vlib.Proc(1, "", "Fehler beim Parsen (llvm-as): could not parse llvm ir: " + first + "\n" + v.err[:2000], False), src
+                    chk.count("ir_modules_verified_by_llvm_as")
             return ok, c, src
 
         def phase2(args):
@@ -276,6 +430,8 @@ def run(tier):
                     cid, expr, ctx = cell
                     opsig = "%s:%s" % (cid[0], cid[1]) if cid[0] != "cast" else "cast"
                     operands = ",".join(cid[2:-1]) if cid[0] != "cast" else "%s->%s" % (cid[1], cid[2])
+                    if cid[0] == "stmt":
+                        operands = ",".join(cid[2:])
                     sig = {"kind": "accepted by the front end but not compiled", "class": cls, "operator": opsig, "operands": operands, "context": ctx}
                     err, src = extra
                     fails_by_class.setdefault((cls, opsig), 0)
